@@ -106,6 +106,22 @@ pub enum Op {
         #[serde(default)]
         iso_fresh: Option<Mode>,
     },
+    /// C18 with real caller threads: `threads[t]` lists the queries (indices into `queries`) that caller
+    /// thread `t` evaluates one after the other, each stepped to exhaustion, all against the one database
+    /// in `slot`. Exactly one caller thread runs at any instant; at every scheduling point (before each
+    /// step, inside every lookup when the phrase is tokenised, at the end of every lookup, when a
+    /// thread ends) the next thread is chosen by the next byte `c` of `schedule`: 0 = the current
+    /// thread goes on (if it still can), otherwise runnable[(c - 1) % runnable.len()]; an exhausted
+    /// schedule means "lowest runnable". Skipped (and reported as such) when the database type of the
+    /// tree under test is not `Sync`.
+    Threads {
+        slot: usize,
+        queries: Vec<QuerySpec>,
+        threads: Vec<Vec<usize>>,
+        schedule: Vec<u8>,
+        #[serde(default)]
+        iso_fresh: Option<Mode>,
+    },
     /// Drop the database in `slot`.
     Drop { slot: usize },
 }
@@ -242,6 +258,24 @@ pub enum Event {
     Answers { slot: usize, count: usize, answers: Vec<Answer> },
     OwnWords { slot: usize, constants: usize, typeable: usize, queries: usize, fails: Vec<OwnWordsFail>, winners_hash: String },
     Interleave { slot: usize, max_open: usize, queries: Vec<InterleaveQuery> },
+    /// how a `Threads` operation went (its per-query outcome follows as an `Interleave` event)
+    Threads {
+        slot: usize,
+        threads: usize,
+        /// scheduling points passed
+        yields: usize,
+        /// of which the running thread changed
+        switches: usize,
+        /// of which inside a lookup (between tokenising the phrase and searching)
+        inside_lookup: usize,
+        /// hash of the realised (thread, point kind) sequence
+        trace_hash: String,
+        /// the scheduler lost control (a caller thread did not come back within the watchdog, e.g. it
+        /// blocks on a lock held by a parked thread): the threads then ran freely
+        uncontrolled: bool,
+        /// Some(reason) when the operation was not run at all
+        skipped: Option<String>,
+    },
     FaultFired { kind: String, point: String, k: usize },
     /// the session ran to its end
     End,
